@@ -120,15 +120,15 @@ prop("C11",
 
 
 prop("C05",
-     quick=[rapid("TestC05", 50000, shards=4, mem_gb=6)],
-     thorough=[rapid("TestC05", 400000, shards=16, mem_gb=6),
+     quick=[rapid("TestC05", 50000, shards=4, mem_gb=6), plain("TestC05Scaling", shards=4, mem_gb=6)],
+     thorough=[rapid("TestC05", 400000, shards=16, mem_gb=6), plain("TestC05Scaling", shards=4, mem_gb=6),
                fuzz("FuzzC05", "120s", mem_gb=16, wall_timeout=900),
                fuzz("FuzzC05", "120s", env={"VERIF_FUZZ_EMPTY_CORPUS": 1}, mem_gb=16, wall_timeout=900)],
-     rule="rapid: expressions as byte strings (random bytes incl. invalid UTF-8 and NUL; token soup with hostile lexemes such as U+0080 after an identifier, extreme integers, unterminated delimiters; grammar sentences and their mutants; truncations/splices; deep nestings of every bracket/prefix kind up to 64 KiB; documents nested up to 3000 levels matched by equally deep expressions; extreme integers in every index/slice slot; all-function document-aware expressions with 30% ill-typed choices; large flat documents) x G-doc documents. Oracle inside the target: recover() around Compile, MustCompile, Search (both forms) and SyntaxError rendering; 20 s watchdog per case; allocation envelope 2048 x (|expr|+|doc|+|result|) + 32 x |expr| x (|doc|+|result|) + 16 MiB for inputs > 4 KiB; and the semantic oracle: lexable texts must be accepted iff grammatical (reference Pratt parser = CFG) and grammatical ones must evaluate like the reference model. Thorough adds native coverage-guided fuzzing (go test -fuzz) of the same target, once seeded with the repository's fuzz corpus + hostile constants and once with an empty corpus. Non-trivial: the input lexes completely or belongs to a hostile class; classes: lex-error, parse-error, evaluated-ok, evaluated-error, deep-nesting, extreme-integer, large-doc, out-of-domain (invalid UTF-8 / integers beyond int64).",
+     rule="rapid: expressions as byte strings (random bytes incl. invalid UTF-8 and NUL; token soup with hostile lexemes such as U+0080 after an identifier, extreme integers, unterminated delimiters; grammar sentences and their mutants; truncations/splices; deep nestings of every bracket/prefix kind up to 64 KiB; documents nested up to 3000 levels matched by equally deep expressions; extreme integers in every index/slice slot; all-function document-aware expressions with 30% ill-typed choices; large flat documents) x G-doc documents. Oracle inside the target: recover() around Compile, MustCompile, Search (both forms) and SyntaxError rendering; 20 s watchdog per case; allocation envelope 2048 x (|expr|+|doc|+|result|) + 32 x |expr| x (|doc|+|result|) + 16 MiB for inputs > 4 KiB; and the semantic oracle: lexable texts must be accepted iff grammatical (reference Pratt parser = CFG) and grammatical ones must evaluate like the reference model. Plus a dose-response check: 60 input families at size k and 8k, thread CPU time may grow at most 24x (judged only above 1 s of CPU). Thorough adds native coverage-guided fuzzing (go test -fuzz) of the same target, once seeded with the repository's fuzz corpus + hostile constants and once with an empty corpus. Non-trivial: the input lexes completely or belongs to a hostile class; classes: lex-error, parse-error, evaluated-ok, evaluated-error, deep-nesting, extreme-integer, large-doc, out-of-domain (invalid UTF-8 / integers beyond int64).",
      technique="property-based robustness testing with a semantic oracle inside the target (rapid) + native coverage-guided fuzzing in the thorough tier",
      level_text="Crash/termination/resource oracle over generated and mutated byte strings, with the differential oracle inside the target so that it is not crash-only. Termination is checked as 'returns within a 20 s watchdog on everything generated'; liveness cannot be established by testing.",
      min_nontrivial=5000,
-     assumptions=["native fuzzing cannot be pinned to VERIF_SEED; its reproducible unit is the saved input (replay file)", "the watchdog (20 s, >= 10^4 x the normal cost) and the allocation envelope are generous bounds, not tight ones"])
+     assumptions=["native fuzzing cannot be pinned to VERIF_SEED; its reproducible unit is the saved input (replay file)", "the watchdog (20 s, >= 10^4 x the normal cost), the allocation envelope and the CPU-time growth rule (24x for 8x size, above 1 s of thread CPU) are generous bounds, not tight ones"])
 
 prop("C06",
      quick=[rapid("TestC06", 15000, shards=4), plain("TestSizeSweep", shards=4), plain("TestProducerConsumerGrid", shards=4)],
